@@ -362,6 +362,9 @@ def generate(seed, index):
         "lifetimes": rng.random() < 0.4,
         "shared_constants": rng.random() < 0.35,
         "io_errors": rng.random() < 0.3,
+        # the harness keeps its eyes shut: shared evaluables are not looked at before their first use
+        # and most evaluations are not followed by a snapshot
+        "quiet": rng.random() < 0.35,
     }
     nclients = rng.randint(1, 6)
     n_evals = rng.randint(5, 40)
@@ -378,6 +381,8 @@ def generate(seed, index):
     for cid in cfg_ids:
         tree = trees[cfgs[cid]["tree"]]
         op = {"op": "scan", "ev": f"E{len(evs)}", "cfg": cid}
+        if swarm["quiet"] and rng.random() < 0.7:
+            op["cold"] = True
         order = _listing_order(rng, tree, swarm["shuffle_listing"])
         if order:
             op["order"] = order
@@ -621,7 +626,8 @@ def generate(seed, index):
                     elif spec.get("arch"):
                         client_ops[c].append({"op": "str", "obj": spec["arch"]})
                     faults["F11_observation_between_evaluations"] += 1
-                client_ops[c].append({"op": "apply", "obj": oid, "ev": ev, "key": key})
+                client_ops[c].append({"op": "apply", "obj": oid, "ev": ev, "key": key,
+                                      **({"nosnap": True} if swarm["quiet"] and rng.random() < 0.7 else {})})
                 if spec.get("arch") and rng.random() < 0.3:
                     client_ops[c].append({"op": "str", "obj": spec["arch"]})
                 used_pairs.append((robjs[oid], cid))
